@@ -279,9 +279,17 @@ type GenOpts struct {
 	// Wild allows values outside the protocol limits (over-long strings, ClientSeq >= 2^32, ...)
 	// and non-zero fields that the version does not carry.
 	Wild bool
+	// Short keeps strings at most a dozen bytes (stream cases: many frames per case).
+	Short bool
 }
 
 func genLen(r *rand.Rand, o GenOpts) int {
+	if o.Short {
+		if r.IntN(3) == 0 {
+			return 0
+		}
+		return 1 + r.IntN(10)
+	}
 	switch k := r.IntN(100); {
 	case k < 25:
 		return 0
@@ -509,3 +517,38 @@ func GenType(r *rand.Rand) uint8 {
 }
 
 // ---- regenerated constants (Gen/Consts_C22.v, shared by C22 and C23) -----------
+
+// ---- term sharing ----------------------------------------------------------------
+
+// Interner gives repeated sub-terms (frames) a let-bound name so that the Coq
+// parser reads every distinct frame of a case once: Coq needs ~0.3 ms per byte
+// of literal, and a decoded frame is usually textually the input frame.
+type Interner struct {
+	names map[string]string
+	defs  []string
+}
+
+// Ref returns the name bound to term, binding it on first use.
+func (it *Interner) Ref(term string) string {
+	if len(term) < 32 {
+		return term
+	}
+	if it.names == nil {
+		it.names = map[string]string{}
+	}
+	if n, ok := it.names[term]; ok {
+		return n
+	}
+	n := fmt.Sprintf("x%d", len(it.defs))
+	it.names[term] = n
+	it.defs = append(it.defs, "let "+n+" := "+term+" in ")
+	return n
+}
+
+// Wrap closes the bindings over body.
+func (it *Interner) Wrap(body string) string {
+	if len(it.defs) == 0 {
+		return body
+	}
+	return "(" + strings.Join(it.defs, "") + body + ")"
+}
